@@ -89,7 +89,12 @@ C29_DeviceState == \A r \in 1..Len(Runs) : \A k \in 1..Len(H(r)) : Good(r, k) =>
 --------------------------------------------------------------------------------
 (* binding diagnostics (a failure is reported as a divergence of the model, not as a violation of C29)              *)
 \* the device stores the configured settings (micro-kA, 10 us; 0 = not used by this kind)
-Bind_Settings == Built => \A n \in DOMAIN C.expect : Close(C.stored[n], C.expect[n], 2, 1)
+Expect == IF IsFuse(Cf) THEN [istart |-> FX(Cf)[1] * IUnit, istop |-> FX(Cf)[Len(Cf.x)] * IUnit]
+          ELSE [Is |-> IF UsesIs(Cf) THEN Cf.Is * IUnit ELSE 0, Ig |-> IF UsesDT(Cf) THEN Cf.Ig * IUnit ELSE 0,
+                Igg |-> IF UsesDT(Cf) THEN Cf.Igg * IUnit ELSE 0,
+                Tgg |-> IF UsesDT(Cf) THEN TggE(Cf) * TUnit ELSE 0, Tg |-> IF UsesDT(Cf) THEN TgE(Cf) * TUnit ELSE 0,
+                Tms |-> IF UsesIs(Cf) THEN TmsE(Cf) * TUnit ELSE 0, Tgrade |-> IF UsesIs(Cf) THEN TgradeE(Cf) * TUnit ELSE 0]
+Bind_Settings == (Built /\ Valid(Cf)) => \A n \in DOMAIN Expect : Close(C.stored[n], Expect[n], 2, 1)
 \* the harness wrote the current the model asked for
 Bind_Fed == \A p \in Evals : Close(Ob(p).fed, Lvl(p) * IUnit, 2, 1)
 \* an invalid std type / curve_select is refused
